@@ -25,7 +25,9 @@ type File struct {
 // Open a cache file for reading.
 func Open(path string, h hash.Hash, rsum, dsum []byte) (*File, error) {
 	h.Reset()
-	h.Write(append(rsum, dsum...))
+	// The sums are the caller's: nothing is appended to them in place.
+	h.Write(rsum)
+	h.Write(dsum)
 	lsum := h.Sum(nil)
 	name := filepath.Join(path, hex.EncodeToString(lsum))
 
@@ -59,7 +61,9 @@ func Open(path string, h hash.Hash, rsum, dsum []byte) (*File, error) {
 // CreateLevel creates a new cache file with the given compression level.
 func CreateLevel(path string, h hash.Hash, rsum, dsum []byte, level int) (*File, error) {
 	h.Reset()
-	h.Write(append(rsum, dsum...))
+	// The sums are the caller's: nothing is appended to them in place.
+	h.Write(rsum)
+	h.Write(dsum)
 	lsum := h.Sum(nil)
 	name := filepath.Join(path, hex.EncodeToString(lsum))
 
